@@ -220,7 +220,9 @@ pub fn run(rep: &mut Report) {
     rep.assume("Tensor4 entries are read through the raw-parts hook; TensorF compared at 1e-9 relative to the largest entry");
     let quick = rep.quick();
     let fams: Vec<(&str, usize, usize, bool, Vec<Ph>)> = if quick {
-        vec![("D(2,2,Phi8)", 2, 2, false, PHI8.to_vec()), ("D(3,2,Phi2)", 3, 2, false, vec![(1, 4), (1, 1)])]
+        let mut tol = PHI4.to_vec();
+        tol.extend_from_slice(&PHI_TOL);
+        vec![("D(2,2,Phi8)", 2, 2, false, PHI8.to_vec()), ("D(3,2,Phi2)", 3, 2, false, vec![(1, 4), (1, 1)]), ("D(2,1,Phi4+tol)", 2, 1, false, tol)]
     } else {
         let mut tol = PHI4.to_vec();
         tol.extend_from_slice(&PHI_TOL);
@@ -239,7 +241,7 @@ pub fn run(rep: &mut Report) {
         rep.absorb(name, &format!("all labelled diagrams <= {} spiders, <= {} boundaries (closed, disconnected, bare and Hadamard wires, X spiders, isolated spiders included), {} phases", s, b, phis.len()), true, None, t0, stats);
     }
     let cfams: Vec<(&str, usize, Vec<quizx::gate::Gate>, usize)> = if quick {
-        vec![("K(2,2,A_full)", 2, alpha_full(2), 2), ("K(3,1,A_full)", 3, alpha_full(3), 1), ("K(2,3,A_ct)", 2, alpha_ct(2), 3)]
+        vec![("K(2,2,A_full)", 2, alpha_full(2), 2), ("K(3,1,A_full)", 3, alpha_full(3), 1), ("K(2,3,A_ct)", 2, alpha_ct(2), 3), ("K(2,2,A_tol)", 2, alpha_tol(2), 2)]
     } else {
         vec![("K(2,3,A_full)", 2, alpha_full(2), 3), ("K(3,2,A_full)", 3, alpha_full(3), 2), ("K(3,3,A_ct)", 3, alpha_ct(3), 3), ("K(2,3,A_tol)", 2, alpha_tol(2), 3)]
     };
